@@ -226,3 +226,92 @@ class EmitBlockingCoroutineResumedFailed(EmitBlockingCoroutine):
 
 ALL = [EmitPublic, EmitPublicFlagSet, EmitPublicNoLoop, EmitPublicNoLoopFlagSet,
        EmitBlockingCoroutine, EmitBlockingCoroutineResumed, EmitBlockingCoroutineResumedFailed]
+
+
+# --------------------------------------------------------------------------- sync(): the part that blocks the calling thread
+class SyncWait(Contract):
+    """`sync(loop, func)` after it has posted its runner coroutine to the loop, without `callback_timeout`: the calling thread is
+    handed the result (or the exception) only once the runner has finished, however long that takes.  (C03: the blocking emit
+    does not return before every consumer has handled the element.)  The runner runs on another thread: its only interface to
+    this code is the `threading.Event` it sets when it has finished (modelled: `wait(t)` returns whether the event is set by then,
+    an arbitrary answer; `is_set()` reads it)."""
+    file = CORE
+    files = [CORE]
+    qual = 'sync'
+    name = 'sync[waiting for the runner, no callback_timeout]'
+    props = ['C03', 'C02']
+    assumptions = ('threading.Event: wait(t) returns True iff the event is set when it returns, is_set() reads the same flag; the '
+                   'runner coroutine sets it exactly when it has finished (trusted; threads are outside the verified subset)',
+                   'the statements of sync() before and including loop.add_callback(f) are not part of this unit (closure set-up)')
+
+    def unit(self, I, index):
+        import ast
+        rel, fnode = index.function('sync')
+        k = None
+        for i, s in enumerate(fnode.body):
+            if isinstance(s, ast.Expr) and isinstance(s.value, ast.Call) and isinstance(s.value.func, ast.Attribute) \
+                    and s.value.func.attr == 'add_callback':
+                k = i
+        if k is None:
+            raise KeyError('locator does not resolve: the statement that posts the runner in sync()')
+        stmts = fnode.body[k + 1:]
+
+        def run(I):
+            from pyvc.state import ReturnSignal
+            st = State()
+            I.st = st
+            g = st.ghost
+            g['flag'] = VBool(z3.Bool('runner_finished0'))
+            g['waits'] = VInt(0)
+            err = st.new_list(z3.Unit(z3.Const('error0', sym.Elem)), K_ELEM)
+            res = st.new_list(z3.Unit(z3.Const('result0', sym.Elem)), K_ELEM)
+            loc = {'e': VRef(z3.Const('event', sym.Obj), 'Event'), 'timeout': NONE, 'error': err, 'result': res,
+                   'loop': VRef(z3.Const('loop', sym.Obj), 'IOLoop')}
+            self.pre_args = dict(loc)
+            self.pre_state = st.snapshot()
+            g['_pre'] = (self.pre_state, self.pre_args)
+            I.contract_pre = self.pre_state
+            I.contract_pre_frame = self.pre_frame(I)
+            fr = Frame('sync', loc)
+            from pyvc.repoindex import find_loops
+            fr.loop_ids = {id(n): i for i, n in enumerate(find_loops(fnode))}
+            try:
+                I.exec_block(stmts, fr)
+            except ReturnSignal as r:
+                return r.value, fr
+            return NONE, fr
+        return run
+
+    def summaries(self):
+        def wait(I, recv, args, kwargs):
+            g = I.st.ghost
+            now = z3.Bool(sym.fresh_name('finished_by_then'))
+            g['flag'] = VBool(z3.Or(g['flag'].t, now))
+            g['waits'] = VInt(g['waits'].t + 1)
+            return VBool(g['flag'].t)
+
+        def is_set(I, recv, args, kwargs):
+            return VBool(I.st.ghost['flag'].t)
+        return {'Event.wait': wait, 'Event.is_set': is_set}
+
+    def spec_funcs(self):
+        def raise_value(I, v):
+            # `raise error[0]`: the exception object the runner stored
+            raise PyRaise(VExc('RunnerError'))
+        return {'raise_value': raise_value}
+
+    def loop_specs(self):
+        from pyvc.loops import LoopSpec
+        return {('sync', 0): LoopSpec(modifies=['ghost:flag', 'ghost:waits'], invariant=[('waits_counted', 'waits >= 0')],
+                                      props=['C03'], name='wait')}
+
+    def cover(self, outcomes):
+        return [('some path leaves the function', any(o.kind in ('return', 'raise') for o in outcomes))]
+
+    def clauses(self):
+        return [Clause('C03.blocking_call_returns_only_after_the_runner_has_finished', ['C03', 'C02'], when='return', text='flag',
+                       note='a wait that gives up after a fixed time would hand control back while consumers are still busy'),
+                Clause('C03.blocking_call_raises_only_after_the_runner_has_finished', ['C03', 'C02'], when='raise', text='flag')]
+
+
+ALL += [SyncWait]
